@@ -1,0 +1,15 @@
+//go:build verif
+
+// Round 5, integration: small helpers that several properties depend on although they sit outside the anchored files.
+// Comment-only file, checked by /verif/cmd/nsqvc.
+
+package nsqd
+
+// The disk queue of a channel is named <topic>:<channel>. ':' cannot occur in a valid topic or channel name (protocol.IsValidTopicName /
+// IsValidChannelName allow [.a-zA-Z0-9_-] and the #ephemeral suffix only), so this name can never equal the name of a topic's own queue
+// (= the topic name) nor that of another (topic, channel) pair: C07 / C01 "bodies reach the channel they were published to".
+//@ func getBackendName(topicName, channelName string) string
+//@   props C07 C01 C05
+//@   nochan
+//@   ensures[topic-colon-channel] result == topicName + ":" + channelName
+//@   modifies
